@@ -25,6 +25,10 @@ pub enum Garbage {
     FileAsEntityDir(u8),
     /// a stale copy of a real artifact name with other contents
     StaleArtifact(u8),
+    /// a regular file where a selectable directory (Query/Home, User/Avatar) will be needed
+    FileAsSelectableDir(u8),
+    /// a symbolic link inside the artifact directory to a directory outside it
+    SymlinkToOutside(u8),
 }
 
 #[derive(Serialize, Deserialize, Clone, Debug, PartialEq, Eq, Hash)]
@@ -107,6 +111,23 @@ fn write_garbage(w: &World, g: &Garbage) {
             if !p.exists() {
                 let _ = std::fs::write(p, b"i am a file\n");
             }
+        }
+        Garbage::FileAsSelectableDir(n) => {
+            let (entity, selectable) = if n % 2 == 0 { ("Query", "Home") } else { ("User", "Avatar") };
+            let e = dir.join(entity);
+            if !e.exists() || e.is_dir() {
+                let _ = std::fs::create_dir_all(&e);
+                let p = e.join(selectable);
+                if !p.exists() {
+                    let _ = std::fs::write(p, b"i am a file too\n");
+                }
+            }
+        }
+        Garbage::SymlinkToOutside(n) => {
+            let outside = w.root.join(format!("outside{n}"));
+            let _ = std::fs::create_dir_all(&outside);
+            let _ = std::fs::write(outside.join("keep.ts"), b"// not an artifact, not inside the artifact directory\n");
+            let _ = std::os::unix::fs::symlink(&outside, dir.join(format!("link{n}")));
         }
         Garbage::StaleArtifact(n) => {
             let name = if n % 2 == 0 { "iso.ts" } else { "tsconfig.json" };
@@ -543,11 +564,13 @@ fn gen_garbage(rng: &mut Rng) -> Vec<Garbage> {
     (0..rng.below(4))
         .map(|_| {
             let n = rng.below(4) as u8;
-            match rng.below(5) {
+            match rng.below(7) {
                 0 => Garbage::RootFile(n),
                 1 => Garbage::NestedFile(n),
                 2 => Garbage::EmptyDir(n),
                 3 => Garbage::FileAsEntityDir(n),
+                4 => Garbage::FileAsSelectableDir(n),
+                5 => Garbage::SymlinkToOutside(n),
                 _ => Garbage::StaleArtifact(n),
             }
         })
